@@ -22,8 +22,11 @@ CANARY = {"root": {"id": 0, "via": "return", "body": [{"op": "yield", "catch": F
 
 
 def canary_trace(reset):
-    env = engine.run_program(copy.deepcopy(CANARY), reset=reset)
+    env = engine.run_program(copy.deepcopy(CANARY), reset=reset, check_c04=True, check_c06=True)
     tr = engine.trace(env)
+    # every in-body / per-flush monitor of the engine (resume-once, start order, maximal batching, flush windows, context
+    # activity) must stay as silent as on a fresh scheduler
+    tr["monitors"] = sorted(set(c for c, m in env.viol if not c.startswith("C08")))
     tr["flushes"] = [f for f in tr["flushes"] if f[0] == "canary"]
     tr["steps"] = sum(1 for e in env.log if e[0] == "step")
     tr["foreign_flushes"] = sum(1 for e in env.events if e[0] == "before" and e[1] != "canary")
